@@ -165,3 +165,8 @@ CORPUS += [
     Mut('c19-horseshoe-on-the-rescaled-rates', 'torchtree/cli/priors.py', '', "        'x': f'{branch_model_id}.rates.unscaled',\n        'parameters': {'tree_model': tree_id},",
         "        'x': f'{branch_model_id}.rates',\n        'parameters': {'tree_model': tree_id},", mode='text', expect=[('C19.J', 'cli.priors::{}.rates.logdiff::not-stacked-on-a-transform-without-jacobian')]),
 ]
+CORPUS += [
+    Mut('c19-helper-tree-keeps-branch-lengths-in-one-branch-only', 'torchtree/cli/evolution.py', '', "                    ReparameterizedTimeTreeModel.from_json(\n                        tree_model, {\"taxa\": taxa_obj}\n                    )\n                )\n\n                ratios = Parameter.json_factory(",
+        "                    ReparameterizedTimeTreeModel.from_json(\n                        dict(tree_model, keep_branch_lengths=True), {\"taxa\": taxa_obj}\n                    )\n                )\n\n                ratios = Parameter.json_factory(",
+        mode='text', expect=[('C19.U', 'cli.evolution::create_tree_model::tree_model::helper-objects-built-alike')]),
+]
